@@ -245,10 +245,16 @@ def regen():
     return rc == 0, out
 
 
-def coq_make(targets, timeout=3000):
+def coq_make(targets, timeout=3000, with_regen=False):
+    """make of the given targets under the exclusive build lock; with_regen: the translator-lite runs inside the same critical
+    section, so that the generated files the proofs are compiled against are the ones made from THIS check's repository
+    (VERIF_REPO runs on scratch worktrees may be going on in parallel)."""
     with Lock("coq"):
+        gen = regen() if with_regen else (True, "")
         coq_makefile()
         rc, out = sh(["timeout", str(timeout), "make", "-k", "-j%d" % NCPU] + targets, cwd=COQ)
+    if with_regen:
+        return rc == 0, out, gen[0], gen[1]
     return rc == 0, out
 
 
@@ -471,7 +477,8 @@ def main_check(P, argv):
         log("grep gate failed:\n" + "\n".join(gate))
         print("ERROR: forbidden construct in the Coq development: " + gate[0])
         finish(2)
-    ok_gen, gen_out = regen()
+    low = prop.lower()
+    ok_mk, mk_out, ok_gen, gen_out = coq_make(["Properties_%s.vo" % prop, "Extract_%s.vo" % prop], with_regen=True)
     broken = []
     if not ok_gen:
         # only the plugins whose generated file this property's theorems / extraction depend on concern this check
@@ -483,8 +490,6 @@ def main_check(P, argv):
             broken.append(("translator", "tools/extract_src.py no longer matches the source: " + "\n".join(mine)[-1500:]))
         else:
             log("translator plugins not used by %s report: %s" % (prop, gen_out[-500:]))
-    low = prop.lower()
-    ok_mk, mk_out = coq_make(["Properties_%s.vo" % prop, "Extract_%s.vo" % prop])
     thm_ok, theorems, praw = (False, [], "")
     if ok_mk:
         thm_ok, theorems, praw = coq_properties(prop)
@@ -653,16 +658,18 @@ def _proj(P, o, fl):
     return f(o, fl) if f else o
 
 
-def shrink(P, model, exe, s, o, fl, per_timeout, budget=300):
-    """Greedy: keep a candidate while the implementation still fails the model-free oracle (or still crashes)."""
+def shrink(P, model, exe, s, o, fl, per_timeout, budget=300, wall=150.0):
+    """Greedy: keep a candidate while the implementation still fails the model-free oracle (or still crashes).
+    Bounded by a number of candidates and by wall time (a hanging mutant costs per_timeout per candidate)."""
     cur, curo = s, o
     n = 0
+    t_end = time.time() + wall
     improved = True
-    while improved and n < budget:
+    while improved and n < budget and time.time() < t_end:
         improved = False
         for c in P.shrink(cur):
             n += 1
-            if n >= budget:
+            if n >= budget or time.time() >= t_end:
                 break
             io = run_impl(exe, [c], per_timeout=per_timeout)[0]
             if io.startswith("!"):
